@@ -57,7 +57,40 @@ def plan(tier: str, seed: int) -> list[dict]:
     n = 220 if tier == "quick" else 30000
     for k in range(16):
         shards.append({"kind": "random", "n": n})
+    # a fixed family (independent of the random draw): every boundary-value frame kind x every configuration, each frame delivered as a
+    # call of its own ('flag frame flag'), as 'frame flag', flag by flag, octet by octet and in one call
+    shards.append({"kind": "frame_per_call", "n": 12 if tier == "quick" else 200})
     return shards
+
+
+def run_frame_per_call(shard: dict, ctx) -> None:
+    rng = ctx.rng("c06", "frame_per_call")
+    kinds = ("hcs_zero", "hcs_flags", "fcs_zero", "fcs_ffff", "fcs_ends_7d", "fcs_has_7e", "reg_zero_mid", "near_max_dense", "header_only_fcs_zero", "fcs_equals_other_field", "info_repeats_own_header_after_a_flag")
+    n = 0
+    for rep in range(shard["n"]):
+        for kind in kinds:
+            for cfg in hdlc_gen.CONFIGS:
+                frames = [hdlc_gen.special_frame(rng, None, kind)[0], hdlc_gen.good_frame(rng, None, max_info=30, want_info=True)[0], hdlc_gen.special_frame(rng, None, kind)[0]]
+                wires = [hdlc_gen.on_wire(f, cfg[0]) for f in frames]
+                for style in ("own_flags", "shared_flag"):
+                    if style == "own_flags":
+                        stream = b"".join(b"\x7e" + w + b"\x7e" for w in wires)
+                        cuts, pos = [], 0
+                        for w in wires[:-1]:
+                            pos += len(w) + 2
+                            cuts.append(pos)
+                    else:
+                        stream = b"\x7e" + b"\x7e".join(wires) + b"\x7e"
+                        cuts, pos = [1], 1
+                        for w in wires[:-1]:
+                            pos += len(w) + 1
+                            cuts.append(pos)
+                    specs = [("cuts", cuts), splits.aligned_spec(stream, 0x7E, 1), splits.aligned_spec(stream, 0x7E, 1, 0)]
+                    if len(stream) < 1500:
+                        specs.append(("bytewise",))
+                    n += compare(cfg, stream, specs, ctx)
+                    ctx.case(b"fpc" + bytes(cfg) + stream, True)
+    ctx.count("boundary_value_frames_delivered_one_call_per_frame", n)
 
 
 def compare(cfg, stream: bytes, specs, ctx, states=None) -> int:
@@ -92,6 +125,8 @@ def compare(cfg, stream: bytes, specs, ctx, states=None) -> int:
 
 
 def run(shard: dict, ctx) -> None:
+    if shard.get("kind") == "frame_per_call":
+        return run_frame_per_call(shard, ctx)
     states: set = set()
     if shard["kind"] == "exh":
         alpha = ALPHA_A if shard["alpha"] == "A" else ALPHA_B
